@@ -36,7 +36,7 @@ func main() {
 	scratch, clean := vlib.Scratch("c15")
 	defer clean()
 	dnsfix.Quiet(scratch)
-	debug.SetGCPercent(1600) // allocation-heavy, tiny live heap
+	debug.SetGCPercent(100)
 	verbose := os.Getenv("VERIF_VERBOSE") != ""
 	if pf := os.Getenv("C15_PROF"); pf != "" {
 		f, _ := os.Create(pf)
@@ -45,14 +45,20 @@ func main() {
 	}
 
 	// Operation menu. In EVERY state (<=3 values per key): every Add, every Del,
-	// every batch of <= baseBatch lines. In every state with <= smallPerKey values
-	// per key additionally every batch of exactly baseBatch+1 lines.
+	// every batch of <= baseBatch lines. In every state holding <= smallTotal values
+	// in all additionally every batch of exactly baseBatch+1 lines.
 	baseBatch := r.Pick(1, 2)
 	maxBatch := baseBatch + 1
-	const smallPerKey = 2
-	const backupDepth = 2 // Backup+Restore at every state of depth <= 2
-	const gen2Depth = 1   // ... plus a second backup generation at depth <= 1
-	createBatchEvery := r.Pick(256, 4096)
+	const smallTotal = 4
+	const smallPerKey = 2 // backup cases: states with <= 2 values per key
+	// Backup+Restore at every state of depth <= backupDepth that has <= smallPerKey
+	// values per key; with a second backup generation where the store holds
+	// <= gen2Total values in all. (Every backup case costs 3 database opens, 9 with
+	// the second generation, and an open costs ~17 short-lived threads inside
+	// RocksDB: opens, not transitions, are what the time budget of a tier buys.)
+	backupDepth := r.Pick(1, 2)
+	gen2Total := r.Pick(1, 2)
+	createBatchEvery := r.Pick(16381, 262139) // primes; ordinal = state index * menu size + op index
 	baseOps := singles()
 	for n := 0; n <= baseBatch; n++ {
 		baseOps = append(baseOps, batches(n)...)
@@ -90,8 +96,10 @@ func main() {
 				atomic.AddInt64(&skippedStates, 1)
 				return
 			}
-			if d <= backupDepth && os.Getenv("C15_NOBACKUP") == "" {
-				w.backupRestore(s, d <= gen2Depth)
+			small := len(s[0]) <= smallPerKey && len(s[1]) <= smallPerKey
+			total := len(s[0]) + len(s[1])
+			if d <= backupDepth && small && os.Getenv("C15_NOBACKUP") == "" {
+				w.backupRestore(s, total <= gen2Total)
 			}
 			if !w.install(s) {
 				results[i].skipped = true
@@ -101,13 +109,18 @@ func main() {
 			seen := map[state]bool{}
 			fullSeen := map[string]bool{}
 			ops := baseOps
-			if len(s[0]) <= smallPerKey && len(s[1]) <= smallPerKey {
+			if total <= smallTotal {
 				ops = allOps
 				atomic.AddInt64(&smallStates, 1)
 			}
-			// key-removal raw dumps (operations of <=2 lines) in the smallest states: at most one
-			// value in all (quick, 11 states) / at most one value per key (thorough, 36 states)
-			tiny := len(s[0]) <= 1 && len(s[1]) <= 1 && (r.Thorough() || len(s[0])+len(s[1]) <= 1)
+			// key-removal raw dumps (2 opens each) in the smallest states. thorough: <=1 value
+			// per key (36 states), operations of <=2 lines; quick: <=1 value in all (11
+			// states), operations of <=1 line, of <=2 lines in the empty store.
+			tiny := len(s[0]) <= 1 && len(s[1]) <= 1 && (r.Thorough() || total <= 1)
+			krLines := 2
+			if !r.Thorough() && total == 1 {
+				krLines = 1
+			}
 			sampleJ := (i * 7919) % len(ops)
 			for j, o := range ops {
 				if ct.isAborted() {
@@ -115,8 +128,8 @@ func main() {
 					atomic.AddInt64(&skippedStates, 1)
 					return
 				}
-				useCB := o.kind == opBatch && (i+j)%createBatchEvery == 0 && os.Getenv("C15_NOCB") == ""
-				got, legal := w.step(s, o, useCB, fullSeen, tiny && len(o.e) <= 2)
+				useCB := o.kind == opBatch && (i*len(ops)+j)%createBatchEvery == 0 && os.Getenv("C15_NOCB") == ""
+				got, legal := w.step(s, o, useCB, fullSeen, tiny && len(o.e) <= krLines)
 				if j == sampleJ {
 					results[i].sample = fmt.Sprintf("depth %d: %s --%s--> %s (matches the model: %v)", d, s.content(), o, got, legal)
 				}
@@ -203,7 +216,7 @@ func main() {
 	r.Set("successors_beyond_bound_checked_not_expanded", ct.outOfBound)
 	r.Set("operations_per_state", len(baseOps))
 	r.Set("operations_per_small_state", len(allOps))
-	r.Set("small_states_le2_values_per_key", smallStates)
+	r.Set("small_states_le4_values_in_all", smallStates)
 	r.Set("max_batch_lines_every_state", baseBatch)
 	r.Set("max_batch_lines_small_states", maxBatch)
 	r.Set("find_findfirst_agreement_checks", ct.fullReads)
@@ -214,6 +227,7 @@ func main() {
 	r.Set("backup_restore_cases", ct.backupCases)
 	r.Set("backup_second_generation_cases", ct.backupGen2Cases)
 	r.Set("backup_depth", backupDepth)
+	r.Set("backup_second_generation_max_values", gen2Total)
 	r.Set("raw_dumps_of_closed_store", ct.rawDumps)
 	r.Set("hard_resets", ct.hardResets)
 	r.Set("stopped_early_store_grossly_broken", ct.isAborted())
@@ -222,11 +236,11 @@ func main() {
 	r.Set("states_skipped_install_failed", skippedStates)
 	r.Set("failing_cases_total", totalFail)
 	r.Set("failing_cases_minimal", minimal)
-	r.Set("rule", fmt.Sprintf("level-synchronous BFS from the empty store to the fixed point; state = content of keys {k1,k2} as read from the REAL store, canonical within <=%d values per key over 5 values (156^2 states). In every state: 10 Add, 10 Del and every sequence of 0..%d add/del lines as one batch; in every state with <=%d values per key additionally every sequence of %d lines (order and duplicates included). Each operation is executed on a real rdb.RDB that was brought into the state with the store's own Add/Del and read back; afterwards the error/no-error outcome and ForEach on every key (Find/FindFirst agreement once per distinct successor content of a state) are compared with the model (Add: appended; Del: exactly one equal value gone, rest in order, fails without effect if absent; batch: all additions then all deletions, named keys compared as multisets, other keys exactly, fails iff a deletion has no target and then changes nothing). In the smallest states (quick: <=1 value in all, 11 states; thorough: <=1 value per key, 36 states), after every successful operation of <=2 lines that leaves a key it names without values the store is closed and dumped raw: the key must be gone. Successors with >%d values under a key are checked but not expanded. At every state of depth <=%d the store is closed, dumped raw, backed up with rdb.Backup and restored with rdb.Restore into another directory, which must hold the same map (raw dump and a real RDB on it); at depth <=%d a second backup generation into the same backup directory is restored into a fresh and over the existing directory. nontrivial = transitions whose expected outcome is a changed map", maxPerKey, baseBatch, smallPerKey, maxBatch, maxPerKey, backupDepth, gen2Depth))
+	r.Set("rule", fmt.Sprintf("level-synchronous BFS from the empty store to the fixed point; state = content of keys {k1,k2} as read from the REAL store, canonical within <=%d values per key over 5 values (156^2 states). In every state: 10 Add, 10 Del and every sequence of 0..%d add/del lines as one batch; in every state holding <=%d values in all additionally every sequence of %d lines (order and duplicates included). Each operation is executed on a real rdb.RDB that was brought into the state with the store's own Add/Del and read back; afterwards the error/no-error outcome and ForEach on every key (Find/FindFirst agreement once per distinct successor content of a state) are compared with the model (Add: appended; Del: exactly one equal value gone, rest in order, fails without effect if absent; batch: all additions then all deletions, named keys compared as multisets, other keys exactly, fails iff a deletion has no target and then changes nothing). In the smallest states (thorough: <=1 value per key, 36 states, operations of <=2 lines; quick: <=1 value in all, 11 states, operations of <=1 line, <=2 lines in the empty store), after every successful operation that leaves a key it names without values the store is closed and dumped raw: the key must be gone. Successors with >%d values under a key are checked but not expanded. At every state of depth <=%d with <=%d values per key the store is closed, backed up with rdb.Backup and restored with rdb.Restore into another directory, which must hold the same map (ordered raw dump); where the store holds <=%d values in all, additionally: raw dump of the source, a real RDB opened on the restored copy, then one more Add, a second backup into the same backup directory, restored into a fresh and over the existing directory (the latest backup must win). nontrivial = transitions whose expected outcome is a changed map", maxPerKey, baseBatch, smallTotal, maxBatch, maxPerKey, backupDepth, smallPerKey, gen2Total))
 	r.Assume = []string{
 		"RocksDB itself (memtable, flush, compaction, backup engine) is executed, not modelled",
 		"the store's future behaviour depends only on the bytes under each key, which ForEach observes completely (a malformed tail is a ForEach error); equal observations are therefore merged although reached through different physical histories",
-		"batches are built on the zero rdb.Batch except on a deterministic subset (every " + fmt.Sprint(createBatchEvery) + "th batch transition) that uses RDB.CreateBatch, whose only difference is a 2x100000-entry pre-allocation",
+		"batches are built on the zero rdb.Batch except on a deterministic subset (transitions whose ordinal within the level is a multiple of " + fmt.Sprint(createBatchEvery) + ") that uses RDB.CreateBatch, whose only difference is a 2x100000-entry pre-allocation",
 		"keys outside {k1,k2} are only looked for by raw dumps (at backup points and when each worker's store is finally closed)",
 		"single writer at a time per store; concurrency of Add/Del/ExecuteBatch (writeMutex) is not explored here",
 		"values longer than 2 bytes, more than 3 values per key, batches longer than the bound, and random long histories are outside the bound",
